@@ -28,7 +28,7 @@ fn pn_of(space: PacketNumberSpace, x: u64) -> PacketNumber {
     space.new_packet_number(VarInt::new(x).unwrap())
 }
 
-//@ harness props=C08 tier=quick level=full timeout=240
+//@ harness props=C08,C05 tier=quick level=full timeout=240
 //@ fn PacketNumber::truncate
 //@ fn derive_truncation_range
 //@ fn PacketNumberLen::from_varint
@@ -92,7 +92,7 @@ fn any_truncated(space: PacketNumberSpace) -> TruncatedPacketNumber {
     }
 }
 
-//@ harness props=C08 tier=quick level=full timeout=240
+//@ harness props=C08,C05 tier=quick level=full timeout=240
 //@ fn decode_packet_number
 //@ fn TruncatedPacketNumber::expand
 #[kani::proof]
@@ -133,7 +133,7 @@ fn vq_c08_pn_decode_vs_rfc_a3() {
     kani::cover!(true, "reach:end");
 }
 
-//@ harness props=C08 tier=quick level=full timeout=240
+//@ harness props=C08,C05 tier=quick level=full timeout=240
 //@ fn TruncatedPacketNumber::encode
 //@ fn PacketNumberLen::decode_truncated_packet_number
 //@ fn PacketNumberLen::into_packet_tag_mask
